@@ -45,7 +45,7 @@ def site_key(loc):
     ls = _lines(path)
     if not ls or line > len(ls):
         return f"{rel}:{line}", f"{rel}:{line}"
-    text = re.sub(r"\s+", " ", ls[line - 1]).strip()
+    text = re.sub(r"\s+", " ", " ".join(ls[line - 1:line + 2])).strip()      # the panicking line and the two after it
     fn = "?"
     for i in range(line - 1, -1, -1):
         mm = re.match(r"\s*(?:pub(?:\([a-z]+\))?\s+)?(?:const\s+|unsafe\s+|extern\s+\"C\"\s+)*fn\s+([A-Za-z_][A-Za-z0-9_]*)", ls[i])
@@ -421,6 +421,40 @@ def main(ctx, args):
                 res["bad"].append({"src": unhx(a.split("\t")[0]), "impl": a.split("\t")[2][:300], "judge": g[1]})
         return res
 
+    occ_stats = {"cases": 0, "disagree": [], "pred": collections.Counter(), "after_bind_of_cyclic": collections.Counter()}
+
+    def occurs_job(depth, shard, nshards):
+        """P1 tie of Model/Occurs.lean: the real type checker is made to unify ?0 with every small type t; the model's
+        `occ` (with the `&&` quirk) predicts whether the occurs check fires (a `Circular …` diagnostic) or the variable is bound"""
+        q = driver("C04", ["occurs", str(depth)])
+        rows = [l.split("\t") for l in q.stdout.split("\n") if l][shard::nshards]
+        p = run_sup(["lines"], stdin_data="".join(r[0] + "\n" for r in rows))
+        st = new_stats()
+        pr = absorb(st, f"occurs{shard}", p.stdout)
+        res = {"cases": 0, "disagree": [], "pred": collections.Counter(), "after": collections.Counter()}
+        by = {}
+        for l in p.stdout.split("\n"):
+            r = parse_result(l) if l else None
+            if r:
+                by[r["hex"]] = r
+        for hexp, quirk, fixed, occurs in rows:
+            r = by.get(hexp)
+            res["cases"] += 1
+            res["pred"][f"{quirk}/{occurs}"] += 1
+            if r is None:
+                res["disagree"].append({"src": unhx(hexp), "model": quirk, "impl": "no result line"})
+                continue
+            circ = "circ=1" in r["extra"]
+            if r["class"] in ("abort", "timeout"):
+                impl = "bind"          # no diagnostic came out: the check did not fire before the crash
+            else:
+                impl = "circular" if circ else "bind"
+            if impl != quirk:
+                res["disagree"].append({"src": unhx(hexp), "model": quirk, "impl": impl, "class": r["class"], "stages": r["stages"]})
+            if quirk == "bind" and occurs == "occurs":
+                res["after"][r["class"]] += 1
+        return ("occurs", res, st, pr)
+
     if args.replay:
         r = json.load(open(args.replay))
         text = r["src"] if "src" in r else unhx(r["src_hex"])
@@ -464,14 +498,25 @@ def main(ctx, args):
         def work(job):
             if job[0] == "spans":
                 return ("spans", spans_job(job[1]))
+            if job[0] == "occurs":
+                return occurs_job(*job[1])
             st = new_stats()
             p = run_sup(job[1], stack=job[2], timeout_ms=job[3]) if len(job) > 2 else run_sup(job[1])
             pr = absorb(st, job[0], p.stdout)
             if p.returncode != 0:
                 pr.append({"kind": "supervisor-crash", "stream": job[0], "stderr": p.stderr[-1500:]})
             return (st, pr)
-        for res in parallel(jobs + [("spans", g) for g in sjobs], work):
-            if res[0] == "spans":
+        ojobs = [("occurs", (2, k, 4)) for k in range(4)]
+        for res in parallel(jobs + [("spans", g) for g in sjobs] + ojobs, work):
+            if res[0] == "occurs":
+                _, r, st, pr = res
+                occ_stats["cases"] += r["cases"]
+                occ_stats["disagree"] += r["disagree"][:3]
+                occ_stats["pred"].update(r["pred"])
+                occ_stats["after_bind_of_cyclic"].update(r["after"])
+                merge(stats, st)
+                problems += pr
+            elif res[0] == "spans":
                 r = res[1]
                 if r["crash"]:
                     problems.append({"kind": "spans-crash", "stderr": r["crash"]})
@@ -520,13 +565,18 @@ def main(ctx, args):
     if span_stats["disagree"] and not span_stats["bad"]:
         ctx.violation(f"model errorSpan and parser_errors_to_reportable disagree: {span_stats['disagree'][0]}",
                       dict(span_stats["disagree"][0], correspondence="Model/ParserLoops.lean errorSpan vs parser/mod.rs"), found_input=False)
+    if occ_stats["disagree"]:
+        d = occ_stats["disagree"][0]
+        ctx.violation(f"occurs check: model (Model/Occurs.lean, `&&` quirk) says {d['model']}, the real type checker {d['impl']} on {d['src']!r}",
+                      dict(d, correspondence="Model/Occurs.lean occ vs typing/unification.rs occur_check", cases=len(occ_stats["disagree"])),
+                      found_input=False)
     if not proved and not new:
         ctx.violation("proof obligation broken: " + "; ".join(ctx._broken), {"stage": "prove", "theorems": ctx._broken,
                       "lake": getattr(ctx, "_lake_errors", "")}, found_input=False)
     for k in known:
         n = hit.get(k["sig"], 0)
         if n or args.replay is None:
-            ctx.known_finding(f"{k['id']} [{k['sig']}] {k['what']} (cases hit this run: {n})")
+            ctx.known_finding(f"{k['id']} [{k['sig']}] {k['what']} (cases hit this run: {n})".replace("\n", "\\n"))
         if n == 0 and args.replay is None:
             ctx.notes.append(f"known finding {k['id']} did not reproduce on its own witness in this run")
     # core sequences no longer than the full-alphabet bound were enumerated twice
@@ -540,8 +590,10 @@ def main(ctx, args):
                 "separator-free full-alphabet stream is not counted); other streams are deduplicated by hash; one evaluation = one text run through tokenize, parse_to_expr, typecheck_with_module_info, Context::emit_bytecode and "
                 "Context::emit_wasm in a child process; distinct = distinct text; non-trivial = at least two syntax tokens",
         "samples": stats["samples"][:4] or [{"note": "no sample recorded (replay mode or tiny run)"}],
-        "traces_validated_against_impl": span_stats["cases"],
-        "model_impl_disagreements": len(span_stats["disagree"]),
+        "traces_validated_against_impl": span_stats["cases"] + occ_stats["cases"],
+        "model_impl_disagreements": len(span_stats["disagree"]) + len(occ_stats["disagree"]),
+        "occurs_check_correspondence": {"programs": occ_stats["cases"], "model_prediction/does_?0_occur": dict(occ_stats["pred"]),
+                                        "outcome_after_a_cyclic_binding_was_let_through": dict(occ_stats["after_bind_of_cyclic"])},
         "impl_property_failures": sum(e["count"] for e in stats["c04"].values()),
         "input_distribution": {
             "distinct_texts": len(stats["distinct"]) + stats["distinct_n"] - overlap + max(stats.get("nosep_n", 0) - nc - 1, 0),
